@@ -7,10 +7,12 @@ Model of the parse actions attached to the operator levels:
 namespace MoSql.OpJson
 open MoSql.Infix
 
-/-- `mo_parsing.utils.is_number` on what can sit next to a sign: numbers, and — because it
-tries `float(s)` — the identifiers `inf` / `infinity` in any letter case. -/
+/-- `mo_parsing.utils.is_number` on what can sit next to a sign: numbers (`float(s)` must
+succeed, so integers beyond the binary64 range are "not numbers"), and — because it tries
+`float(s)` — the identifiers `inf` / `infinity` in any letter case. -/
 def isNumber : Raw → Bool
-  | .int _ => true
+  | .int i => i.natAbs < 2 ^ 1024 - 2 ^ 970     -- `float(i)` raises OverflowError beyond the binary64 range
+
   | .flt _ => true
   | .str s => let l := s.toLower; l == "inf" || l == "infinity"
   | _ => false
